@@ -8,8 +8,8 @@
    accepts ([axis_ok ax = true], lemma [valid_is_what_the_code_accepts]):
    lo <= hi, at least one grid point, strictly increasing, all inside [lo, hi].
    [nthR i l] is [nth i l 0]. *)
-From Coq Require Import ZArith Reals List Bool.
-From Verif Require Import Base.Num Base.Vec C14.Model C14.Proofs C14.ProofsIndex C14.ProofsUniform C14.ProofsSlice C14.ProofsNd C14.ProofsAxes C14.ProofsFactories C14.ProofsByaxis C14.ProofsList.
+From Coq Require Import ZArith QArith Reals List Bool.
+From Verif Require Import Base.Num Base.Vec Gen.Partition C14.Model C14.ProofsGen C14.Proofs C14.ProofsIndex C14.ProofsUniform C14.ProofsSlice C14.ProofsNd C14.ProofsAxes C14.ProofsFactories C14.ProofsByaxis C14.ProofsList Base.Transfer C14.Transfer.
 Import ListNotations.
 Local Open Scope R_scope.
 
@@ -481,3 +481,159 @@ Print Assumptions fromgrid_explicit_limits_valid.
 Theorem fromgrid_single_point_needs_limits : forall (c : R) (omax : option R),
   fromgrid_axis [c] None omax = ValueErr.
 Proof. exact fromgrid_axis_single. Qed.
+
+(* ------------------------------------------------------------------ *)
+(* TIE TO THE SOURCE.  Gen/Partition.v is REGENERATED from /repo on every run by the fail-closed
+   translator translate/partition.py.  The hand-written model is proved to be built from the
+   generated formulas, so a changed offset, denominator, side or comparison in
+   uniform_grid_fromintv, uniform_partition, boundary_cell_fractions, the midpoint rule, the
+   edge rules of index() or the bounds test of normalized_index_expression breaks a proof here
+   (besides the correspondence). *)
+Theorem model_ugrid_limits_is_the_generated_formula :
+  forall (T : Type) (NT : Num T) (n : Z) (xmin xmax : T) (fl : bool * bool),
+  ugrid_limits n xmin xmax fl = gen_ugrid_limits n xmin xmax (fst fl) (snd fl).
+Proof. exact (@ugrid_limits_is_generated). Qed.
+Print Assumptions model_ugrid_limits_is_the_generated_formula.
+Theorem model_completion_is_the_generated_formulas :
+  forall (rnd : R -> Z) (oxmin oxmax : option R) (on : option Z) (odx : option R) (fl : bool * bool),
+  complete_axis rnd oxmin oxmax on odx fl =
+  match oxmin, oxmax, on, odx with
+  | None, Some xmax, Some n, Some dx => Ok (gen_complete_min 0 xmax n dx (fst fl) (snd fl), xmax, n)
+  | Some xmin, None, Some n, Some dx => Ok (xmin, gen_complete_max xmin 0 n dx (fst fl) (snd fl), n)
+  | Some xmin, Some xmax, None, Some dx =>
+      let n_calc := gen_n_calc xmin xmax 0%Z dx (fst fl) (snd fl) in
+      if neqb (of_Z (rnd n_calc)) n_calc then Ok (xmin, xmax, rnd n_calc) else ValueErr
+  | Some xmin, Some xmax, Some n, None => Ok (xmin, xmax, n)
+  | Some xmin, Some xmax, Some n, Some dx =>
+      if neqb xmax (gen_xmax_calc xmin xmax n dx (fst fl) (snd fl)) then Ok (xmin, xmax, n) else ValueErr
+  | _, _, _, _ => ValueErr
+  end.
+Proof. exact complete_axis_is_generated. Qed.
+Print Assumptions model_completion_is_the_generated_formulas.
+Theorem model_fractions_are_the_generated_formulas : forall ax : axis R, (2 <= length (a_cs ax))%nat ->
+  bdry_fracs ax = (gen_left_frac (a_cs ax) (a_lo ax) (a_hi ax), gen_right_frac (a_cs ax) (a_lo ax) (a_hi ax)).
+Proof. exact bdry_fracs_is_generated. Qed.
+Theorem model_fractions_one_point_are_the_generated_value : forall lo hi c : R,
+  fst (bdry_fracs (mkAxis lo hi [c])) = fst (@gen_frac_single R _) /\
+  snd (bdry_fracs (mkAxis lo hi [c])) = snd (@gen_frac_single R _).
+Proof. exact bdry_fracs_single_is_generated. Qed.
+Theorem model_boundaries_are_the_generated_midpoint_rule : forall ax : axis R, (1 <= length (a_cs ax))%nat ->
+  nthR 0 (bdry_vec ax) = gen_bdry_first (a_lo ax) (a_hi ax) /\
+  nthR (length (a_cs ax)) (bdry_vec ax) = gen_bdry_last (a_lo ax) (a_hi ax) /\
+  forall i, (S i < length (a_cs ax))%nat -> nthR (1 + i) (bdry_vec ax) = gen_bdry_mid (a_cs ax) i.
+Proof. exact bdry_vec_is_generated. Qed.
+Print Assumptions model_boundaries_are_the_generated_midpoint_rule.
+Theorem model_index_is_the_generated_edge_rule : forall (T : Type) (NT : Num T) (ax : axis T) (x : T),
+  index_axis ax x = gen_index (bdry_vec ax) (Z.of_nat (count_lt x (bdry_vec ax))) x.
+Proof. exact (@index_axis_is_generated). Qed.
+Theorem model_floating_index_is_the_generated_rule : forall (T : Type) (NT : Num T) (ax : axis T) (x : T),
+  findex_axis ax x = gen_findex (bdry_vec ax) (Z.of_nat (count_lt x (bdry_vec ax))) x.
+Proof. exact (@findex_axis_is_generated). Qed.
+Print Assumptions model_floating_index_is_the_generated_rule.
+Theorem model_int_bounds_test_is_the_generated_one : forall (its : bool) (i n : Z) (l : list item) (sh : list Z),
+  norm_ints its (IInt i :: l) (n :: sh) =
+  if gen_out_of_bounds (gen_wrap i n) n then IndexErr
+  else bind (norm_ints its l sh) (fun r =>
+         Ok ((if its then ISlice (Some (fst (gen_int_slice (gen_wrap i n))))
+                                 (Some (snd (gen_int_slice (gen_wrap i n)))) None
+              else IInt i) :: r)).
+Proof. exact norm_ints_is_generated. Qed.
+Print Assumptions model_int_bounds_test_is_the_generated_one.
+
+(* ------------------------------------------------------------------ *)
+(* TRANSFER.  The model the correspondence shards EXECUTE (carrier Q, reduced rationals) is the
+   rational restriction of the model the theorems above are ABOUT (carrier R): Q2R commutes with
+   every executable function of C14/Model.v.  Guards are the places where the code divides:
+   strictly increasing coordinates (boundary fractions), the width of the located cell
+   (floating index), n >= 1 (uniform grids), cell_sides <> 0 (computed shape).
+   [axR] maps an axis over Q to the axis over R; [resmap] maps under the outcome enum. *)
+Theorem transfer_cell_vectors : forall ax : axis Q,
+  map Q2R (bdry_vec ax) = bdry_vec (axR ax) /\
+  map Q2R (cell_sizes ax) = cell_sizes (axR ax) /\
+  nodes_on_bdry ax = nodes_on_bdry (axR ax) /\
+  option_map Q2R (cell_side ax) = cell_side (axR ax) /\
+  axis_ok ax = axis_ok (axR ax).
+Proof.
+  exact (fun ax => conj (bdry_vec_transfer ax) (conj (cell_sizes_transfer ax)
+          (conj (nodes_on_bdry_transfer ax) (conj (cell_side_transfer ax) (axis_ok_transfer ax))))).
+Qed.
+Print Assumptions transfer_cell_vectors.
+Theorem transfer_boundary_cell_fractions : forall ax : axis Q, strict_incr (a_cs ax) = true ->
+  (Q2R (fst (bdry_fracs ax)), Q2R (snd (bdry_fracs ax))) = bdry_fracs (axR ax).
+Proof. exact bdry_fracs_transfer. Qed.
+Theorem transfer_constructor : forall p : list (axis Q),
+  mk_part (map axR p) = resmap (map axR) (mk_part p).
+Proof. exact mk_part_transfer. Qed.
+Theorem transfer_index : forall (p : list (axis Q)) (x : list Q),
+  index p x = index (map axR p) (map Q2R x).
+Proof. exact index_transfer. Qed.
+Theorem transfer_floating_index : forall (ax : axis Q) (x : Q),
+  let b := bdry_vec ax in let ind := count_lt x b in
+  ~ (nsub (nth0 ind b) (nth0 (ind - 1) b) == 0)%Q ->
+  Q2R (findex_axis ax x) = findex_axis (axR ax) (Q2R x).
+Proof. exact findex_axis_transfer. Qed.
+Theorem transfer_getitem_axis : forall (ax : axis Q) (it : item) (lim : Q * Q),
+  resmap (fun ab => (Q2R (fst ab), Q2R (snd ab))) (sub_limits ax it) = sub_limits (axR ax) it /\
+  resmap axR (sub_axis ax it lim) = sub_axis (axR ax) it (Q2R (fst lim), Q2R (snd lim)).
+Proof. exact (fun ax it lim => conj (sub_limits_transfer ax it) (sub_axis_transfer ax it lim)). Qed.
+Theorem transfer_uniform_grid : forall (n : Z) (xmin xmax : Q) (fl : bool * bool), (1 <= n)%Z ->
+  map Q2R (ugrid_axis n xmin xmax fl) = ugrid_axis n (Q2R xmin) (Q2R xmax) fl.
+Proof. exact ugrid_axis_transfer. Qed.
+Theorem transfer_completion : forall (rndQ : Q -> Z) (rndR : R -> Z) (oxmin oxmax : option Q) (on : option Z)
+  (odx : option Q) (fl : bool * bool),
+  (forall q, rndR (Q2R q) = rndQ q) ->
+  (forall dx, odx = Some dx -> ~ (dx == 0)%Q) ->
+  resmap triR (complete_axis rndQ oxmin oxmax on odx fl) =
+  complete_axis rndR (option_map Q2R oxmin) (option_map Q2R oxmax) on (option_map Q2R odx) fl.
+Proof. exact complete_axis_transfer. Qed.
+Theorem transfer_factories : forall (cs : list Q) (omin omax : option Q) (fl : bool * bool),
+  resmap axR (nonuniform_axis cs omin omax fl) =
+    nonuniform_axis (map Q2R cs) (option_map Q2R omin) (option_map Q2R omax) fl /\
+  resmap axR (fromgrid_axis cs omin omax) =
+    fromgrid_axis (map Q2R cs) (option_map Q2R omin) (option_map Q2R omax).
+Proof. exact (fun cs omin omax fl => conj (nonuniform_axis_transfer cs omin omax fl) (fromgrid_axis_transfer cs omin omax)). Qed.
+Print Assumptions transfer_factories.
+
+(* ------------------------------------------------------------------ *)
+(* T3 (round 3 widening). *)
+(* index lists with negative entries: every entry in [-n, n) is wrapped once (NumPy integer-array
+   indexing), anything outside is an IndexError; if the wrapped list is increasing the result is
+   the valid partition [list_ax] of the theorem getitem_index_list_partial. *)
+Theorem getitem_index_list_with_negative_entries : forall (ax : axis R) (p' : list (axis R)) (l : list Z),
+  valid ax -> Forall valid p' -> (1 <= length l)%nat ->
+  (forall i, In i l -> (- zlen (a_cs ax) <= i < zlen (a_cs ax))%Z) ->
+  zincr (map (wrap_idx (zlen (a_cs ax))) l) ->
+  getitem_list (ax :: p') l = Ok (list_ax ax (map (wrap_idx (zlen (a_cs ax))) l) :: p') /\
+  valid (list_ax ax (map (wrap_idx (zlen (a_cs ax))) l)).
+Proof. exact getitem_list_wrapped. Qed.
+Print Assumptions getitem_index_list_with_negative_entries.
+Theorem getitem_index_list_out_of_range : forall (ax : axis R) (p' : list (axis R)) (l : list Z),
+  (exists i, In i l /\ (i < - zlen (a_cs ax) \/ zlen (a_cs ax) <= i)%Z) ->
+  getitem_list (ax :: p') l = IndexErr.
+Proof. exact getitem_list_out_of_range. Qed.
+
+(* rejected index expressions: two Ellipses -> ValueError; a None entry -> ValueError; more
+   entries than axes -> IndexError (tuples without integers/Ellipsis passing the empty-axes test) *)
+Theorem two_ellipses_are_rejected : forall (its : bool) (a b c : list item) (shape : list Z),
+  norm_index (ETuple (a ++ IEll :: b ++ IEll :: c)) shape its = ValueErr.
+Proof. exact norm_index_two_ellipses. Qed.
+Theorem new_axis_is_rejected : forall (its : bool) (l : list item) (shape : list Z),
+  existsb is_int l = false -> existsb is_ell l = false -> (length shape <= length l)%nat ->
+  empty_slice_check l shape = false -> existsb is_new l = true ->
+  norm_index (ETuple l) shape its = ValueErr.
+Proof. exact norm_index_new_axis. Qed.
+Theorem too_many_indices_are_rejected : forall (its : bool) (l : list item) (shape : list Z),
+  existsb is_int l = false -> existsb is_ell l = false -> (length shape < length l)%nat ->
+  empty_slice_check l shape = false -> existsb is_new l = false ->
+  norm_index (ETuple l) shape its = IndexErr.
+Proof. exact norm_index_too_many. Qed.
+Print Assumptions too_many_indices_are_rejected.
+
+(* squeeze(axis=[...]): the axes that stay are those not selected or with more than one point,
+   in their original order (any carrier) *)
+Theorem squeeze_axis_list : forall (T : Type) (p : list (axis T)) (l : list Z),
+  (forall j, In j l -> (0 <= j < zlen p)%Z) ->
+  squeeze p (AxList l) =
+  Ok (map snd (filter (fun ja => negb (zmem (fst ja) l) || nondegen (snd ja)) (positions 0 p))).
+Proof. exact (@squeeze_list). Qed.
+Print Assumptions squeeze_axis_list.
